@@ -392,6 +392,7 @@ func runC05(c *Ctx) {
 		// strict comparison
 		found := false
 		okStrict := false
+		onMaps := false
 		for _, b := range m.Blocks {
 			iff := ifOf(b)
 			if iff == nil {
@@ -405,8 +406,14 @@ func runC05(c *Ctx) {
 			if isLen(bo.X) && isLen(bo.Y) {
 				found = true
 				okStrict = bo.Op == token.LSS || bo.Op == token.GTR
+				for _, lv := range []ssa.Value{bo.X, bo.Y} {
+					if _, isMap := lv.(*ssa.Call).Call.Args[0].Type().Underlying().(*types.Map); isMap {
+						onMaps = true
+					}
+				}
 			}
 		}
+		c.ob("C05-R4", serverPkg+".Router.Match#specificity-counts-parameter-segments", m.Pos(), found && !onMaps, "specificity is measured as the size of the name->value binding maps: a pattern that uses a parameter name twice (/cmp/:id/:id) binds one name, so it counts as more specific than it is and ties with /cmp/latest/:id - the tie then goes to the earlier declaration")
 		c.ob("C05-R4", serverPkg+".Router.Match#strict-specificity-comparison", m.Pos(), found && okStrict, "the best-candidate update is not a strict parameter-count comparison: with equal specificity a later declaration replaces the earlier one")
 		// no early return inside the candidate loop (every candidate is scanned)
 		early := false
@@ -462,6 +469,135 @@ func runC05(c *Ctx) {
 		if !done {
 			c.ob("C05-R5", "cmd/glyph.executeRoute#builds-request", er.Pos(), false, "executeRoute does not build an interpreter.Request")
 		}
+		// the decoded path and the raw query are never joined into one string
+		isRawQuery := func(v ssa.Value) bool {
+			u, ok := v.(*ssa.UnOp)
+			if !ok || u.Op != token.MUL {
+				return false
+			}
+			nt, f, ok := fieldOf(u.X)
+			return ok && nt != nil && nt.Obj().Name() == "URL" && f == "RawQuery"
+		}
+		joined, sep, rq := false, false, false
+		eachInstr(er, func(_ *ssa.BasicBlock, _ int, ins ssa.Instruction) {
+			st, ok := ins.(*ssa.Store)
+			if !ok {
+				return
+			}
+			nt, f, ok := fieldOf(st.Addr)
+			if !ok || nt == nil || nt.Obj().Pkg() == nil || nt.Obj().Pkg().Path() != interpPath || nt.Obj().Name() != "Request" {
+				return
+			}
+			switch f {
+			case "Path":
+				if derivesFrom(st.Val, isRawQuery) {
+					joined = true
+				}
+			case "QuerySeparate":
+				sep = isConstBool(st.Val, true)
+			case "RawQuery":
+				rq = derivesFrom(st.Val, isRawQuery)
+			}
+		})
+		c.ob("C05-R5", "cmd/glyph.executeRoute#decoded-path-and-raw-query-stay-apart", er.Pos(), !joined && sep && rq, "the percent-decoded path and the raw query string are joined into one string that the interpreter splits again at the first '?': a %3F inside a path segment ends the path there, the rest of the segment is parsed as query parameters (GET /docs/why%3Fdraft=true binds title=\"why\" and sets the typed parameter draft)")
+	}
+	// … and the interpreter does not look for a '?' in a path it was given apart from the query
+	if xr := c.fn(interpPkg, "Interpreter.ExecuteRoute"); xr != nil {
+		var sepLoads []ssa.Value
+		eachInstr(xr, func(_ *ssa.BasicBlock, _ int, ins ssa.Instruction) {
+			if u, ok := ins.(*ssa.UnOp); ok && loadedFromField(u, "Request", "QuerySeparate") {
+				sepLoads = append(sepLoads, u)
+			}
+		})
+		searchesQ := func(f *ssa.Function) func(ins ssa.Instruction) bool {
+			return func(ins ssa.Instruction) bool {
+				call, ok := ins.(*ssa.Call)
+				if !ok {
+					return false
+				}
+				switch callName(call) {
+				case "strings.Index", "strings.IndexByte", "strings.Cut", "strings.Split", "strings.SplitN", "strings.Contains", "strings.LastIndex":
+					if s, ok := constString(call.Call.Args[1]); ok && s == "?" {
+						return true
+					}
+					if k, ok := constInt(call.Call.Args[1]); ok && k == '?' {
+						return true
+					}
+				}
+				return false
+			}
+		}
+		cutSep := func(b *ssa.BasicBlock, si int) bool {
+			for _, v := range sepLoads {
+				if known, val := boolOnEdge(b, si, v); known && !val {
+					return true
+				}
+			}
+			return false
+		}
+		// any search for '?' (here or in a callee that is given something derived from request.Path)
+		isSearch := func(ins ssa.Instruction) bool {
+			if searchesQ(xr)(ins) {
+				return true
+			}
+			if call, ok := ins.(ssa.CallInstruction); ok {
+				if sf := staticFn(call); sf != nil && sf.Pkg == xr.Pkg {
+					fromPath := false
+					for _, a := range call.Common().Args {
+						if derivesFrom(a, func(v ssa.Value) bool { return loadedFromField(v, "Request", "Path") }) {
+							fromPath = true
+						}
+					}
+					if fromPath && reachesInstr(sf, searchesQ(sf), 0, map[*ssa.Function]bool{}) {
+						return true
+					}
+				}
+			}
+			return false
+		}
+		q := &pathQuery{fn: xr, cutEdge: cutSep, target: isSearch}
+		hit, path := q.fromEntry()
+		p := xr.Pos()
+		if hit != nil {
+			p = hit.Pos()
+		}
+		c.ob("C05-R5", fnKey(xr)+"#no-query-split-of-a-separate-path", p, len(sepLoads) > 0 && hit == nil, "ExecuteRoute looks for '?' in the request path although the caller passed the query string separately (QuerySeparate): a literal '?' in a decoded path segment is taken for the start of the query", c.blockPath(path)...)
+	}
+
+	// ---- R7 dispatch-time path is matched as it arrived
+	c.rule("C05-R7", "def-use: what Router.Match hands to matchRoute derives from its path parameter only through the leading-slash normalisation and the split into segments (strings.HasPrefix, concatenation with \"/\", splitPath/strings.Split): no TrimSpace/Trim*/ToLower/Replace/Clean/Unescape is applied to the already percent-decoded request path, so the segments that are bound are the segments that were sent")
+	if m := c.fn(serverPkg, "Router.Match"); m != nil && len(m.Params) >= 3 {
+		pathParam := m.Params[2]
+		allowed := map[string]bool{"strings.HasPrefix": true, "strings.Split": true, serverPath + ".splitPath": true, "builtin.len": true}
+		bad := ""
+		var badPos token.Pos
+		n := 0
+		eachInstr(m, func(_ *ssa.BasicBlock, _ int, ins ssa.Instruction) {
+			call, ok := ins.(*ssa.Call)
+			if !ok || callName(call) != serverPath+".matchRoute" {
+				return
+			}
+			n++
+			derivesFrom(call.Call.Args[1], func(v ssa.Value) bool {
+				if cl, ok := v.(*ssa.Call); ok {
+					nm := callName(cl)
+					if !allowed[nm] {
+						// only calls that take something derived from the path parameter matter
+						for _, a := range cl.Call.Args {
+							if derivesFrom(a, func(z ssa.Value) bool { return z == ssa.Value(pathParam) }) {
+								bad = short(nm)
+								badPos = cl.Pos()
+							}
+						}
+					}
+				}
+				return false
+			})
+		})
+		if badPos == token.NoPos {
+			badPos = m.Pos()
+		}
+		c.ob("C05-R7", fnKey(m)+"#request-path-matched-as-sent", badPos, n > 0 && bad == "", "the request path passes through "+bad+" before it is matched: net/http has already decoded it, so white space, case or dots at its ends are data of a segment (GET /files/a%20 binds \"a\", GET /files/%20 is dispatched to /files)")
 	}
 
 	// ---- R6 binding fidelity
@@ -490,6 +626,34 @@ func runC05(c *Ctx) {
 			continue
 		}
 		n := 0
+		// the binding may live in a helper the anchor delegates to (same package, returns the name->segment map)
+		hasBinding := func(f *ssa.Function) bool {
+			found := false
+			eachInstr(f, func(_ *ssa.BasicBlock, _ int, ins ssa.Instruction) {
+				if mu, ok := ins.(*ssa.MapUpdate); ok {
+					if mt, ok := mu.Map.Type().Underlying().(*types.Map); ok && mt.Elem().String() == "string" {
+						found = true
+					}
+				}
+			})
+			return found
+		}
+		for d := 0; d < 3 && !hasBinding(fn); d++ {
+			var next *ssa.Function
+			eachCall(fn, func(call ssa.CallInstruction) {
+				sf := staticFn(call)
+				if sf == nil || sf.Pkg != fn.Pkg || sf.Signature.Results().Len() == 0 {
+					return
+				}
+				if mt, ok := sf.Signature.Results().At(0).Type().Underlying().(*types.Map); ok && mt.Elem().String() == "string" && next == nil {
+					next = sf
+				}
+			})
+			if next == nil {
+				break
+			}
+			fn = next
+		}
 		eachInstr(fn, func(_ *ssa.BasicBlock, _ int, ins ssa.Instruction) {
 			mu, ok := ins.(*ssa.MapUpdate)
 			if !ok {
